@@ -162,7 +162,8 @@ class Inbound:
         # Process the answer section (other than the initial SOA in
         # the first message).
         #
-        for rrset in message.answer[answer_index:]:
+        answers = message.answer[answer_index:]
+        for i, rrset in enumerate(answers):
             name = rrset.name
             rdataset = rrset
             if self.done:
@@ -192,6 +193,9 @@ class Inbound:
                         raise dns.exception.FormError("empty IXFR sequence")
                     if self.incremental and self.serial != soa.serial:
                         raise dns.exception.FormError("unexpected end of IXFR sequence")
+                    if i != len(answers) - 1:
+                        # Detect surplus records before the transfer is committed.
+                        raise dns.exception.FormError("answers after final SOA")
                     self.txn.replace(name, rdataset)
                     self.txn.commit()
                     self.txn = None
